@@ -91,7 +91,7 @@ structure Epoch where
   hour : Int
   minute : Int
   second : Rat
-  deriving Repr, Inhabited
+  deriving Repr, Inhabited, DecidableEq
 
 /-- the fields of one record line, `line[a:b].strip()` each, on the rstripped line -/
 def lineValues (ld : LineDef) (line : Str) : List (String × Str) := sliceAll ld.fields (rstrip line)
@@ -152,7 +152,7 @@ def epochSeconds (mixedPath : Bool) (e : Epoch) : Rat :=
 structure St where
   data : Cols
   epochs : List Epoch        -- one per kept record (for the time column)
-  deriving Inhabited
+  deriving Inhabited, DecidableEq
 
 /-- the epoch line handler of the parser version in use -/
 def headOf (v2sys : Option Str) (vs : List (String × Str)) : Option Head :=
@@ -288,26 +288,45 @@ def lnavOk (d : Cols) : Bool :=
       !(cellStr s = ['G'] || cellStr s = ['J']) || ((cellNum v).map isIntegral).getD true
   | _, _ => true
 
-/-- a whole RINEX 3 navigation file -/
-def parseV3 (T : Tables) (text : Str) : Option Cols := do
+/-- the lines of the file as Python's text-mode iteration yields them (newline removed) -/
+def textLines (text : Str) : List Str :=
   let lines := (splitOn '\n' text)
-  let lines := match lines.reverse with | [] :: r => r.reverse | _ => lines
-  let (header, body) := splitHeader lines
+  match lines.reverse with | [] :: r => r.reverse | _ => lines
+
+/-- RINEX 3, reading: header / data split, record splitting, one `addRecord` per record.
+Result: the header's satellite-system letter and the columns with the record epochs. -/
+def accumV3 (T : Tables) (text : Str) : Option (Str × St) := do
+  let (header, body) := splitHeader (textLines text)
   let st ← (splitV3 body).foldlM (addRecord T Option.none) ⟨[], []⟩
+  pure (satSys header, st)
+
+/-- RINEX 3, post-processing of the columns: `_check_nav_message`, renaming, time-system correction,
+`_determine_message_type` -/
+def postV3 (T : Tables) (sys : Str) (st : St) : Option Cols := do
   if st.data.isEmpty then Option.none            -- `_check_nav_message`
   let d ← rename3 T.sysnames st.data
-  let d ← timeCorrection T (asString (satSys header)) st.epochs d
+  let d ← timeCorrection T (asString sys) st.epochs d
   if lnavOk d then pure d else Option.none
 
-/-- a whole RINEX 2.x navigation file of system `system` (from the file name) -/
-def parseV2 (T : Tables) (system : String) (text : Str) : Option Cols := do
-  let lines := (splitOn '\n' text)
-  let lines := match lines.reverse with | [] :: r => r.reverse | _ => lines
-  let (_, body) := splitHeader lines
-  let st ← (splitV2 body.length body).foldlM (addRecord T (some system.toList)) ⟨[], []⟩
+/-- a whole RINEX 3 navigation file -/
+def parseV3 (T : Tables) (text : Str) : Option Cols := do
+  let (sys, st) ← accumV3 T text
+  postV3 T sys st
+
+/-- RINEX 2.x, reading: eight lines per record -/
+def accumV2 (T : Tables) (system : String) (text : Str) : Option St :=
+  let (_, body) := splitHeader (textLines text)
+  (splitV2 body.length body).foldlM (addRecord T (some system.toList)) ⟨[], []⟩
+
+def postV2 (T : Tables) (system : String) (st : St) : Option Cols := do
   if st.data.isEmpty then Option.none
   let d := rename2 T.sysnames system st.data
   let d ← timeCorrection T system st.epochs d
   if lnavOk d then pure d else Option.none
+
+/-- a whole RINEX 2.x navigation file of system `system` (from the file name) -/
+def parseV2 (T : Tables) (system : String) (text : Str) : Option Cols := do
+  let st ← accumV2 T system text
+  postV2 T system st
 
 end Midgard.RinexNav
